@@ -80,3 +80,19 @@ def _dropkw(clause, replay, ctx):
     """A named optional positional given by keyword behind an omitted optional
     positional is not forwarded.  Flag computed by Trace_Entry (KF_dropkw)."""
     return ctx.get("kflag") == "d" and clause.startswith("C03:bind.")
+
+
+_FAMILY = {"union": "composite", "inter": "composite", "exactly": "exactly", "strict": "check", "hasmethod": "check",
+           "lit": "dep", "dep": "dep", "prod": "dep"}
+
+
+@matcher("crossfamily")
+def _crossfamily(clause, replay, ctx):
+    """Mirror asymmetry between two hook-defined types of different families."""
+    if clause != "C12:mirror":
+        return False
+    a, b = ctx.get("a"), ctx.get("b")
+    if not a or not b:
+        return False
+    fa, fb = _FAMILY.get(a["k"]), _FAMILY.get(b["k"])
+    return fa is not None and fb is not None and fa != fb
